@@ -492,18 +492,19 @@ def chain (x : Expr) (ls : List Link) : Expr := ls.foldl applyLink x
 def handleResult (id : Nat) (ls : List Link) (env : Env) (srv : Srv) : Except Exc CRes × Srv :=
   getResult (.expr (chain (.const (.handle id)) ls)) env srv
 
-/-- The same chain applied to a local object by ordinary Python evaluation (no laziness at all):
+/-- value and world of a library call; the identity of the result plays no role here -/
+def strip (r : Except Err RVal × World) : Except Err Val × World := (r.1.map (·.1), r.2)
+
+/-- The same link applied to a local object by ordinary Python evaluation (no laziness at all):
 `getattr(v, n)`, `v[k]`, `v(*args, **kw)`. -/
 def localLink (v : Val) (l : Link) (w : World) : Except Err Val × World :=
   match l with
-  | .attr n => ((libVal "getattr" [v, .str n] [] w.counter).1, w)
-  | .item k => ((libVal "getitem" [v, k] [] w.counter).1, w)
+  | .attr n => strip (applyLib "getattr" [(v, 0), (.str n, 0)] [] w)
+  | .item k => strip (applyLib "getitem" [(v, 0), (k, 0)] [] w)
   | .call args kw =>
     match v with
-    | .fn name =>
-      let r := applyLib name (args.map (fun a => (a, 0))) (kw.map (fun p => (p.1, (p.2, 0)))) w
-      (r.1.map (·.1), r.2)
-    | _ => (.error (.py .type), w)
+    | .fn name => strip (applyLib name (args.map (fun a => (a, 0))) (kw.map (fun p => (p.1, (p.2, 0)))) w)
+    | _ => (.error (.py .type), w)                              -- not callable
 
 def localChain (v : Val) (ls : List Link) (w : World) : Except Err Val × World :=
   match ls with
